@@ -67,6 +67,9 @@ int main(int argc, char** argv) {
   add_unit(nm("quatEuler", {CFG}), 3, 4, [](auto const* x, auto* o) { using T = TY(o); stq(o, glm::qua<T, glm::defaultp>(ldv<3, T>(x))); });
   add_unit(nm("quatcast", {CFG}), 9, 4, [](auto const* x, auto* o) { using T = TY(o); stq(o, glm::quat_cast(ldm<3, 3, T>(x))); });
   add_unit(nm("castcast", {CFG}), 4, 4, [](auto const* x, auto* o) { stq(o, glm::quat_cast(glm::mat3_cast(ldq(x)))); });
+  // the ten products r_i r_j (i <= j, order w x y z) of r = quat_cast(mat3_cast(q)): r = +-q  <=>  r_i r_j = q_i q_j for all i, j
+  add_unit(nm("castprod", {CFG}), 4, 10, [](auto const* x, auto* o) { using T = TY(o); auto r = glm::quat_cast(glm::mat3_cast(ldq(x)));
+    T c[4] = {r.w, r.x, r.y, r.z}; int k = 0; for (int i = 0; i < 4; ++i) for (int j = i; j < 4; ++j) o[k++] = c[i] * c[j]; });
   add_unit(nm("qaxis", {CFG}), 4, 3, [](auto const* x, auto* o) { stv(o, glm::axis(ldq(x))); });
   add_unit(nm("qangle", {CFG}), 4, 1, [](auto const* x, auto* o) { o[0] = glm::angle(ldq(x)); });
   add_unit(nm("quatFromTo", {CFG}), 6, 4, [](auto const* x, auto* o) { using T = TY(o); stq(o, glm::qua<T, glm::defaultp>(ldv<3, T>(x), ldv<3, T>(x + 3))); });
